@@ -44,6 +44,10 @@ type tconfig struct {
 	// SETTINGS_MAX_FRAME_SIZE: the server's value at the handshake (0 = default 16384) and the values it may switch to
 	SrvMaxFrame int64
 	MaxFrameV   []int64
+	// Pause: the scripted server may stop reading from the connection (the Transport's writes then block after one
+	// byte) and resume; while it does not read, nothing the Transport wrote is seen or judged
+	Pause bool
+	NoRet bool // request bodies never end (keeps the alphabet of the pause configurations small)
 }
 
 // one request of the application that uses the transport
@@ -146,6 +150,7 @@ type tworld struct {
 	keepTrace    bool
 	trMaxFrame   int64
 	advMaxFrame  int64 // the SETTINGS_MAX_FRAME_SIZE the scripted server sent last
+	paused       bool  // the scripted server does not read
 }
 
 func newTWorld(cfg tconfig) *tworld {
@@ -192,7 +197,10 @@ func (w *tworld) ridx() []int {
 
 func (w *tworld) settle() {
 	synctest.Wait()
-	b := w.sv.TakeAll()
+	var b []byte
+	if !w.paused {
+		b = w.sv.TakeAll()
+	}
 	if !w.prefaceSeen && len(b) >= len(h2wire.Preface) {
 		b = b[len(h2wire.Preface):]
 		w.prefaceSeen = true
@@ -253,7 +261,16 @@ func (w *tworld) settle() {
 				Msg: fmt.Sprintf("the application read %d response body bytes of stream %d, only %d were sent within the advertised windows", rt, r.id, s.DataAccepted)})
 		}
 	}
+	if w.paused {
+		return // what the Transport owes (credit, queued data) is in its blocked writes: judged after the server reads again
+	}
 	w.viol = append(w.viol, w.led.Quiesce()...)
+	// everything the Transport wrote has been read: its own idea of the connection send window is the peer's
+	if !w.led.Terminal() && !w.led.ConnClosed && !w.led.PeerViolated && len(w.viol) == 0 {
+		if f := http2.VerifC12TransportSnapshot(w.cc); int64(f.ConnOut) != w.led.ConnSend {
+			w.viol = append(w.viol, ledger.Violation{Kind: "send-window-accounting", Msg: fmt.Sprintf("with nothing in flight the Transport believes it may send %d more bytes on the connection, the window the peer granted minus the DATA it received leaves %d: %d bytes of send window are lost to the Transport (queued data will wait for window that is there)", f.ConnOut, w.led.ConnSend, w.led.ConnSend-int64(f.ConnOut))})
+		}
+	}
 }
 
 func (w *tworld) handshake(iws int64) {
@@ -417,7 +434,9 @@ func (w *tworld) enabled() []act {
 			for _, n := range cfg.BodyN {
 				out = append(out, act{K: "W", S: i, N: n})
 			}
-			out = append(out, act{K: "ret", S: i}) // request body EOF
+			if !cfg.NoRet {
+				out = append(out, act{K: "ret", S: i}) // request body EOF
+			}
 		}
 		if got && !rb && !done && !cl {
 			if end == "" {
@@ -434,7 +453,12 @@ func (w *tworld) enabled() []act {
 		for _, k := range cfg.WUk {
 			out = append(out, act{K: "wu", S: i, N: k})
 		}
-		out = append(out, act{K: "rst", S: i})
+		if !(cfg.Pause && s.PeerEnded) {
+			// (with a server that may stop reading: no RST_STREAM after its own END_STREAM - the request goroutine then
+			// finds "peer closed" and "aborted" ready in one select, Go picks at random, and only one of the two paths
+			// writes a RST_STREAM, which a blocked writer turns into a visibly different state)
+			out = append(out, act{K: "rst", S: i})
+		}
 		if !s.PeerEnded {
 			for _, n := range cfg.DataLen {
 				for _, p := range cfg.Pads {
@@ -465,6 +489,13 @@ func (w *tworld) enabled() []act {
 			out = append(out, act{K: "mfs", N: v})
 		}
 	}
+	if cfg.Pause {
+		if w.paused {
+			out = append(out, act{K: "resume"})
+		} else {
+			out = append(out, act{K: "pause"})
+		}
+	}
 	return out
 }
 
@@ -493,6 +524,12 @@ func (w *tworld) apply(a act) {
 		w.send(h2wire.WindowUpdate(sid, uint32(a.N)))
 	case "set":
 		w.send(h2wire.Settings(h2wire.Setting{ID: 4, Val: uint32(a.N)}))
+	case "pause":
+		w.paused = true
+		w.cl.SetWriteCap(1)
+	case "resume":
+		w.paused = false
+		w.cl.SetWriteCap(0)
 	case "mfs":
 		w.advMaxFrame = a.N
 		w.send(h2wire.Settings(h2wire.Setting{ID: 5, Val: uint32(a.N)}))
@@ -521,7 +558,7 @@ func (w *tworld) drainReads() {
 func (w *tworld) key() string {
 	var b strings.Builder
 	b.WriteString(w.led.Key())
-	fmt.Fprintf(&b, "#o%d a%d|", w.opened, w.advMaxFrame)
+	fmt.Fprintf(&b, "#o%d a%d p%v|", w.opened, w.advMaxFrame, w.paused)
 	for _, i := range w.ridx() {
 		if i < w.base {
 			continue
